@@ -91,6 +91,7 @@ struct QHarness {
 	void removeListener(int id) {
 		bool expect = aliveL[id];
 		bool got = q->removeListener(5, handleOf[id]);
+		ctx.tagStep(got ? "+r1" : "+r0");
 		ctx.log(fmt("removeListener(L%d) -> %d", id, (int)got)); ctx.obs(got);
 		if(expect) { auto & l = listeners[protoOf[id]]; l.erase(std::find(l.begin(), l.end(), id)); aliveL[id] = 0; }
 		if(got != expect) ctx.fail("remove-result", fmt("removeListener(L%d) returned %d, expected %d", id, (int)got, (int)expect));
@@ -278,6 +279,7 @@ struct LHarness {
 	void remove(int id) {
 		bool expect = aliveL[id];
 		bool got = Disp ? d->removeListener(5 + keyOf[id], handleOf[id]) : l->remove(handleOf[id]);
+		ctx.tagStep(got ? "+r1" : "+r0");
 		ctx.log(fmt("remove(L%d) -> %d", id, (int)got)); ctx.obs(got);
 		if(expect) { auto & o = order[keyOf[id]][protoOf[id]]; o.erase(std::find(o.begin(), o.end(), id)); aliveL[id] = 0; }
 		if(got != expect) ctx.fail("remove-result", fmt("remove(L%d) returned %d, expected %d", id, (int)got, (int)expect));
